@@ -16,6 +16,7 @@ import (
 
 	"verifharness/gen"
 	"verifharness/heapview"
+	"verifharness/props"
 )
 
 func init() { runners["C11"] = runC11; runners["C12"] = runC12 }
@@ -112,6 +113,17 @@ func heapOpsFor(g *gen.G, richness float64) []heapOp {
 		d = sbom.NewDocument()
 		d.Metadata.Id = "x"
 		d.NodeList = g.CDXTreeDocument(5).NodeList
+	}
+	if g.Chance(0.6) && len(d.NodeList.Nodes) >= 2 {
+		// edges as editing leaves them behind: repeated targets, repeated (source, type) keys, spare capacity
+		d.NodeList = cloneListExact(d.NodeList)
+		ids := props.Keys(props.NodeSet(d.NodeList))
+		for k := 1 + g.Int(3); k > 0; k-- {
+			x, y, z := gen.Pick(g, ids), gen.Pick(g, ids), gen.Pick(g, ids)
+			to := gen.Pick(g, [][]string{{x, x, y}, {x, y, x, z}, {x, x}, {x, y, y, z, x}})
+			to = append(make([]string, 0, len(to)+2), to...)
+			d.NodeList.Edges = append(d.NodeList.Edges, &sbom.Edge{Type: gen.Pick(g, []sbom.Edge_Type{sbom.Edge_dependsOn, sbom.Edge_dependsOn, sbom.Edge_contains, sbom.Edge_other}), From: gen.Pick(g, ids), To: to})
+		}
 	}
 	for _, f := range allWriterFormats {
 		f := f
